@@ -19,6 +19,8 @@
 -/
 import Desync.Proofs.AssembleComplete
 import Desync.Proofs.AssembleConcProofs
+import Desync.Proofs.AssembleConcBridge
+import Desync.Proofs.AssembleFindPlan
 
 namespace Desync.C01
 open Desync Desync.Asm
@@ -149,6 +151,20 @@ theorem accepted_trace_safe {e : AsmConc.Env} {blob prior : Bytes} {n : Nat} {ev
     ∀ p, p < s.ss.written → readUpTo s.file (e.startOf p) (e.sizeOf p) = AsmConc.chunkData e blob p :=
   have hr := AsmConc.run_reachable evs _ s AsmConc.Reachable.refl h
   ⟨AsmConc.conc_length hwf hr, AsmConc.conc_safe hwf hr, fun p hp => selfseed_offers_settled hwf hr p hp⟩
+
+/-- **the trace validation end to end.**  `asmconc.accept` takes the plan from the sequential model's validate / skip /
+    regenerate loop (`findPlan`), builds the machine's environment from it (`AsmConc.envOf`) and runs the machine events
+    it mapped the recorded run to.  Under the assumptions of the sequential safety theorem (the index describes the blob,
+    IDs collision free: `WFSeq`) that environment is well-formed, so whenever the run goes through — i.e. whenever the
+    driver answers `accept` — the final file has the indexed length, and it is the blob if every plan item completed. -/
+theorem accepted_trace_end_to_end {cf : Cfg} {e : Env} {blob prior : Bytes} {fs : FS} {seeds : List Seed} {fuel k n : Nat}
+    {items : List PlanItem} {evs : List AsmConc.Ev} {s : AsmConc.St} (wf : WFSeq cf e blob)
+    (hp : findPlan cf.H cf.rechunk e fs cf.act fuel seeds = some (items, k))
+    (h : AsmConc.run (AsmConc.envOf cf.H e items) (AsmConc.init (AsmConc.envOf cf.H e items) prior n) evs = some s) :
+    s.file.length = blob.length ∧ (AsmConc.Done (AsmConc.envOf cf.H e items) s → s.file = blob) := by
+  obtain ⟨seeds', rfl, _, _, _⟩ := findPlan_returns_valid _ _ _ _ _ _ _ _ _ hp
+  have := accepted_trace_safe (AsmConc.envOf_wf wf seeds') h
+  exact ⟨this.1, this.2.1⟩
 
 /-- the hypotheses of `accepted_trace_safe` can be met: a run of two workers that ends `Done` -/
 example : ∃ s, AsmConc.run AsmConc.Example.env (AsmConc.init AsmConc.Example.env AsmConc.Example.prior 2)
